@@ -88,6 +88,7 @@ class Sim:
         self.real = []           # real answers, aligned with lines
         self.kinds = []
         self.jobs_real = {}
+        self.file_is_current = False     # restart.toml on disk was written for the state as it is now
         self.tmp = tempfile.mkdtemp(prefix="vp-repex-", dir="/var/tmp")
         self.cwd0 = os.getcwd()
         os.chdir(self.tmp)
@@ -128,6 +129,9 @@ class Sim:
             es, ps = entry[0], entry[1]
             tail = f" {int(entry[2])}" if len(entry) > 2 else ""
             self.emit("locked0 " + lst(list(es)) + " " + lst([int(p) for p in ps]) + tail, "ok")
+        if restarted:
+            # set_rgen: the restored spawn counter (the stored one, else cstep + len(locked)) — model computes, code answers
+            self.emit(f"restorectr {cfg['current'].get('spawned', '-')}", str(int(ss.n_children_spawned)), "restorectr")
 
     # ------------------------------------------------------------------ plumbing
     def close(self):
@@ -192,6 +196,7 @@ class Sim:
         ss = st.rgen.bit_generator._seed_seq
         main_draws = sum(1 for rec in ScriptedGen.log if rec[4] == id(st.rgen))
         rfrac, ractive, rlocked, rcstep = "", "", "", ""
+        rspawned = "?"
         rt = os.path.join(self.tmp, "restart.toml")
         if os.path.exists(rt):
             import tomli
@@ -202,6 +207,10 @@ class Sim:
                 ractive = ",".join(str(a) for a in cur.get("active", []))
                 rlocked = ";".join(",".join(str(e) for e in t[0]) + ":" + ",".join(str(p) for p in t[1]) for t in cur.get("locked", []))
                 rcstep = str(cur.get("cstep"))
+                # comparable only when the file on disk is the one of the current step with the current jobs
+                if cur.get("cstep") == st.cstep and len(cur.get("locked", [])) == len(st.locked) \
+                        and self.file_is_current:
+                    rspawned = str(cur.get("spawned", "-"))
             except Exception as e:  # noqa: BLE001
                 rfrac = "unreadable:" + type(e).__name__
         # coherence of the cached P matrix (`_last_prob`) with a fresh computation for the current state/locks
@@ -221,7 +230,7 @@ class Sim:
                 "toinit": str(st.toinitiate), "cworker": str(st.cworker if st.cworker is not None else 0), "cstep": str(st.cstep),
                 "trajnum": str(st.config["current"]["traj_num"]), "frac": frac, "rows": self.rows_real(),
                 "occ": occ, "rng": f"{int(ss.entropy)}:{int(ss.n_children_spawned)}:{main_draws}",
-                "lockedord": lockedord}
+                "lockedord": lockedord, "spawnedrec": rspawned}
 
     def rows_real(self):
         """parse the data file the code wrote: pn:frac cols:weight cols with ---- → 0"""
@@ -265,6 +274,7 @@ class Sim:
 
     def op_prep(self, md, saved_draws=0):
         self.decisions = []
+        self.file_is_current = False
         pin_before = md.get("pin")
         try:
             md = self.st.prep_md_items(md)
@@ -305,6 +315,7 @@ class Sim:
             md = self.st.treat_output(md)
             real = "ok"
             err = None
+            self.file_is_current = True
         except Exception as e:  # noqa: BLE001
             real = err_kind(e)
             err = e
@@ -446,6 +457,8 @@ def field_eq(key, real, model):
             if len(xs) != len(ys) or not all(_num_eq(p, q) for p, q in zip(xs, ys)):
                 return False
         return True
+    if key == "spawnedrec" and real == "?":
+        return True          # no current restart file to read the key from
     return real == model
 
 
